@@ -15,7 +15,7 @@ BUDGET = {"quick": 50, "thorough": 840}
 RULE = (
     "seeded scenarios: messages_limit M in 1..5, backlog M+1..M+20 over 1..3 queues, actor durations from 0 to seconds, "
     "tasks_limit 1..>>M, some arrivals during the run; plus the testing plugin's run-on-enqueue mode (Worker(messages_limit=1) "
-    "inside enqueue). A run is non-trivial when the backlog exceeded M and at least one actor was still running when the "
+    "inside enqueue). A run is Also: result stores that raise - the processing task of such a message ends with an error and still counts. non-trivial when the backlog exceeded M and at least one actor was still running when the "
     "limit was reached (or, plugin mode, at least two enqueues ran a worker); distinct = distinct interleaving digest "
     "(sequence of (node, callback) over all loop steps)."
 )
@@ -61,10 +61,17 @@ def gen(rng, broker, tier):
         "mode": "worker", "M": M, "tasks_limit": rng.choice([1, 2, 3, M, M + 1, 50, 1000]),
         "nq": nq, "jobs": jobs, "graceful_s": rng.choice([60.0, 60.0, 0.2, 0.02]),
         "second_worker": rng.random() < 0.15,
+        # the results broker is down for some stores: the processing task of such a message ends with an error after the
+        # message was reported - it has been executed all the same and counts against the limit like any other
+        "store_fails": sorted(rng.sample(range(1, M + 3), rng.randint(1, min(3, M + 2)))) if rng.random() < 0.25 else None,
         "late_arrival": rng.choice([None, {"q": rng.randrange(3), "k": rng.randint(0, 40)},
                                     {"q": rng.randrange(3), "mode": "before-end", "lead_us": rng.choice([500, 100, 1500, 10])}]),
         "knobs": {"step_cost": rng.choice([0, 0, 1, "rand"])},
     }
+
+
+class _ResultsBrokerDown(Exception):
+    pass
 
 
 def shrink_fixup(sc):
@@ -78,6 +85,21 @@ async def _main_worker(sim, sc, out):
     broker = sc["broker"]
     world = await World(sim, broker, nodes=("w", "w2") if sc.get("second_worker") else ("w",)).setup()
     conn = world.conn("w")
+    if sc.get("store_fails"):
+        rb = conn.results_bucket_broker
+        inner_store = rb.store_bucket
+        n_store = [0]
+
+        async def failing_store(id_, payload):
+            n_store[0] += 1
+            if n_store[0] in sc["store_fails"]:
+                sim.count("fault:result-store-raises")
+                raise _ResultsBrokerDown("results broker is down")
+            return await inner_store(id_, payload)
+
+        rb.store_bucket = failing_store
+        for j in sc["jobs"]:
+            j["store_result"] = True
     jobs = {j["id"]: j for j in sc["jobs"]}
     state = workload.ActorState(world, jobs)
     actors = [{"name": f"a{q}", "queue": f"q{q}"} for q in range(sc["nq"])]
